@@ -120,12 +120,17 @@ CHECKS = {
         ref="DESIGN.md §5 C11"),
     'C12': dict(
         text="Coq theorems about the HTML formatter model: format_cosmetic (for all trees, two option records differing only in the "
-             "formatting options give equal content: relational induction), level_is_depth and per-element line-break indentation "
-             "(_partial: no single statement over every line-break chunk; push_snippet path), comments_additive (_partial: position "
-             "of the comment not expressed), selfclose_local (_partial: compactBoolean off; refuted with it on = listed finding), "
-             "level_restored. Oracle: same abbreviation under two option sets compared after stripping inter-tag whitespace; "
-             "indentation of every line vs open elements; comments; self-closing styles; html/xml/xsl/jsx/vue/svelte. Two listed findings.",
-        technique="Coq proof by relational induction over the tree (two runs, related streams) and level invariants + callback-event correspondence with the implementation + two-option-set oracle",
+             "formatting options give equal content: relational induction); C12_indent_is_depth (FULL: one statement over every "
+             "line-break chunk of the output of every forest in depth_dom -- the number of indent units equals the number of open "
+             "elements read off the tag chunks, tag_chunks_are_events); C12_close_aligned (FULL on align_dom: a closing tag on its own "
+             "line has the units of the line of its opening tag); C12_comments_additive (FULL: the stream with comments off is the "
+             "stream with comments on minus inserted comment chunks, comments_erase); C12_selfclose_local (FULL on its exact domain: "
+             "streams differ only at self-closing marks; refuted under compactBoolean = listed finding); level_restored; the earlier "
+             "_partial statements stay beside them; the four places where the faithful model violates the statement are proved as "
+             "_refuted theorems and listed findings. Oracle: same abbreviation under two option sets compared after stripping "
+             "inter-tag whitespace; indentation of every line vs open elements; closing-tag alignment; comments; self-closing styles; "
+             "html/xml/xsl/jsx/vue/svelte; the depth/alignment domains and per-line units also evaluated in Coq (run/DepthRun.v) against the implementation.",
+        technique="Coq proof by relational induction over the tree (two runs, related streams), line-break/level invariants over the whole stream + callback-event correspondence with the implementation + two-option-set oracle",
         ref="DESIGN.md §5 C12"),
     'C13': dict(
         text="Coq theorems: every stream produced by the HTML and indent formatters is built from the stream primitives (reachability), "
